@@ -8,7 +8,35 @@ FNGEN = ["tools/fngen/run.sh"]
 
 SCHEMAGEN = ["tools/schemagen/run.sh"]
 
+BFT_TB = ["uint64 weight sums are modelled without overflow (total weight < 2^64); heights < 2^32"]
+
 PROPS = {
+    "C01": {
+        "title": "Finality safety: no two conflicting blocks are ever both finalized",
+        "level": "proof",
+        "generators": FNGEN,
+        "technique": "Lean 4: transcription of liskbft proved/evaluated in the kernel (counterexample theorems; safety lemmas) + differential correspondence with the real module on fork trees + model-free pairwise finalized-prefix oracle",
+        "design_ref": "DESIGN.md §6 C01",
+        "level_text": "The Lean transcription of liskbft (Model/BFT.lean) is compared with the real module after every header of every explored branch (full vote-store dump). Lean proves by kernel evaluation that the protocol as implemented finalizes conflicting blocks when precommitThreshold is at the lower bound SetBFTParameters accepts (known finding, replayed on the real module on every run), and the safety lemmas / partial safety theorem for thresholds with byz + W < tau_pc + tau_pv (Props/C01_Safety.lean, when present). The model-free oracle processes every branch of generated fork trees (honest validators never self-contradict, Byzantine weight < 1/3, chain-valid blocks only) through real nodes and requires pairwise compatible finalized prefixes.",
+        "level_note": "Partial: the property as stated is false for low precommit thresholds (recorded known finding, protocol level); validator-set changes inside the tree are not covered by the theorem; signatures are abstracted (a header 'by v' is signed by v). Trusted: Lean kernel, harness and simulator.",
+        "rule": "fork trees of 3-43 blocks, 3-7 validators, random weights, Byzantine set < 1/3 weight, standard and low precommit thresholds; each branch replayed on a real liskbft node; non-trivial = a branch on which finality advanced; distinct = distinct branch op sequences",
+        "trusted_base": BFT_TB,
+        "assumptions": ["static BFT parameters inside one tree"],
+        "timeout": {"quick": 900, "thorough": 10800},
+    },
+    "C02": {
+        "title": "BFT heights are a deterministic function of the header chain (LIP-0058)",
+        "level": "proof",
+        "generators": FNGEN,
+        "technique": "Lean 4 theorems about a line-by-line transcription of liskbft + differential correspondence (full vote-store dump after every header) with the real module",
+        "design_ref": "DESIGN.md §6 C02",
+        "level_text": "Model/BFT.lean transcribes insertBlockBFTInfo, getHeightNotPrevoted, updatePrevotesPrecommits, updateMaxHeight*, parameter lookup/pruning, SetBFTParameters, SetGeneratorKeys, contradicting, ImpliesMaximalPrevotes. Lean proves determinism/compositionality and the invariants in Props/C02_Inv.lean (window bound and shape, weight and height monotonicity, when present). The correspondence runs generated chains (honest and lying generators, validators joining/leaving, weight and threshold changes, aggregate commits triggering pruning, batch sizes 1-12, chains several windows long) through the real module over diffdb/pebble and the compiled model and diffs the complete BFT store after every operation; a second independently built node checks determinism of the implementation.",
+        "level_note": "Trusted: Lean kernel, harness, verif-tagged dump hook in pkg/consensus/liskbft. The LIP-0058 rules are those transcribed in the model (no LIP text offline).",
+        "rule": "random chains of up to 60 (240 for every 20th) blocks with parameter changes; non-trivial = finality advanced beyond genesis and/or parameters changed after blocks; distinct = distinct op sequences",
+        "trusted_base": BFT_TB,
+        "assumptions": [],
+        "timeout": {"quick": 900, "thorough": 10800},
+    },
     "C08": {
         "title": "Codec: lossless round trip, canonical strict decoding, stable IDs",
         "level": "proof",
